@@ -338,7 +338,11 @@ def match_table(fx, fn, adt_q, inline=(), spec=None):
         else:
             arg = K(d)
         try:
-            rs = sx.run(fn, [arg])
+            if fn.local_ty(1).startswith('&'):
+                # by-reference receiver: place the value behind the reference
+                rs = sx.run(fn, [('ref', ('arg', 1), ())], store={(('arg', 1), ()): arg})
+            else:
+                rs = sx.run(fn, [arg])
         except Budget:
             res[v['name']] = None
             continue
